@@ -503,6 +503,15 @@ def check_c16(pid, tier, build, props):
                 violations.append({"graph": item[1], "stage": stages.STAGES[k],
                                    "witness": {"reason": "iteration order/content differs from the breadth-first model",
                                                "answers": x}})
+            elif 1 in x and len(violations) < 5:
+                # the lists agree with the model but the level is not connected from its head under the
+                # iterator's own successor function: the iterator yields only what it reaches (view_spec),
+                # so some block or region of the level is never yielded
+                violations.append({"graph": item[1], "stage": stages.STAGES[k],
+                                   "witness": {"reason": "a block of the level is not reached by the iterator "
+                                                         "(the exiting block of a region does not lead on to it): "
+                                                         "the view omits it",
+                                               "answers": x}})
     nth = len(props["theorems"])
     total = sum(counts.values())
     coverage = {
@@ -526,7 +535,8 @@ def check_c16(pid, tier, build, props):
                        "reachable, every other item after a predecessor; hence a permutation of the level when it is "
                        "connected from its head (C16_concealed_view), and for SCFG.__iter__ a permutation of all "
                        "descendants (C16_iter). Tie: the model's lists equal the implementation's, order included; "
-                       "the connectivity hypothesis is evaluated per instance.",
+                       "the connectivity hypothesis is evaluated per instance, and an instance where it fails is a "
+                       "violation (the iterator provably yields only what it reaches, so it omits a block).",
     }
     return {"coverage": coverage, "violations": violations, "problems": problems, "level": "proof",
             "wall_s": t.s(), "broken_name": "Props/C16.v / correspondence implementation = Iter model (run_c16)"}
